@@ -80,17 +80,29 @@ Qed.
 (* On a case where no two relay goroutines act at one instant, [agree] holds exactly when what the
    implementation was seen to do -- every request of Prepare, its result, every request of Propose,
    every relay call with its time and content, the submission and the return time -- is what the
-   model does on the case's input. *)
+   model does on the case's input; with one latitude: when relays were asked and nothing is
+   submitted, the observed return time may be anything up to the model's (the deadline). *)
 Lemma agree_sound : forall c,
   tie_free (e_deadline (c_env c)) (case_plans c) = true ->
   (agree c = true <->
-   run (c_cfg c) (c_env c) (c_duty c) (c_prepare c) = ((c_prep_events c, c_prep_ok c), c_obs c)).
+   exists t,
+     run (c_cfg c) (c_env c) (c_duty c) (c_prepare c) = ((c_prep_events c, c_prep_ok c), with_ret (c_obs c) t)
+     /\ o_ret (c_obs c) <= t
+     /\ (ret_free (with_ret (c_obs c) t) = false -> t = o_ret (c_obs c))).
 Proof.
   intros c Htie. unfold agree. destruct (run (c_cfg c) (c_env c) (c_duty c) (c_prepare c)) as [[pevs pok] res].
-  rewrite Htie. cbn [negb orb]. rewrite !andb_true_iff, events_eqb_spec, bool_eqb_spec, result_eqb_spec.
+  rewrite Htie. cbn [negb orb]. unfold result_agrees.
+  rewrite !andb_true_iff, events_eqb_spec, bool_eqb_spec, result_eqb_spec, N.leb_le.
   split.
-  - intros ((-> & ->) & ->); reflexivity.
-  - intro H; injection H as -> -> ->; auto.
+  - intros ((-> & ->) & (Hres & Hle)).
+    exists (if ret_free res then o_ret res else o_ret (c_obs c)). rewrite <- Hres. split; [reflexivity|].
+    split.
+    + destruct (ret_free res); lia.
+    + intros Hf. rewrite Hf. reflexivity.
+  - intros (t & H & Hle & Hfree). injection H as -> -> ->. split; [auto|].
+    destruct (ret_free (with_ret (c_obs c) t)) eqn:Hf; cbn [o_ret with_ret].
+    + split; [reflexivity|exact Hle].
+    + rewrite (Hfree eq_refl). split; [reflexivity|lia].
 Qed.
 
 (* ------------------------------------------------------------------------------------------- *)
@@ -100,8 +112,8 @@ Lemma P_b_clauses : forall c, P_b c = true ->
   o_panic (c_obs c) = false
   /\ forallb (randao_event_ok c) (c_prep_events c) = true
   /\ forallb (block_event_ok c) (o_events (c_obs c)) = true
-  /\ (count_events Check.C05.is_sign_block (o_events (c_obs c)) <= 1)%nat
-  /\ unblind_calls_ok c = true /\ submit_ok c = true /\ no_relay_no_submit c = true
+  /\ (count_events ev_sign_block (o_events (c_obs c)) <= 1)%nat
+  /\ unblind_calls_ok c = true /\ submit_ok c = true /\ no_relay_no_submit_b c = true
   /\ degrades_ok c = true /\ other_slot_refused c = true /\ unready_silent c = true.
 Proof.
   intros c H. unfold P_b in H. rewrite !andb_true_iff in H.
@@ -210,9 +222,143 @@ Lemma P_b_sound_no_relay_no_submit : forall c,
 Proof.
   intros c HP Hbl Hno.
   destruct (P_b_clauses c HP) as (_ & _ & _ & _ & _ & _ & Hn & _).
-  unfold no_relay_no_submit in Hn. rewrite Hbl, Hno in Hn. cbn in Hn.
+  unfold no_relay_no_submit_b in Hn. rewrite Hbl, Hno in Hn. cbn in Hn.
   destruct (o_submit (c_obs c)); [discriminate|reflexivity].
 Qed.
 
 Lemma P_b_sound_no_panic : forall c, P_b c = true -> o_panic (c_obs c) = false.
 Proof. intros c HP; apply (P_b_clauses c HP). Qed.
+
+(* ------------------------------------------------------------------------------------------- *)
+(* The model satisfies P_b on every input: the boolean property evaluated on the model's own
+   output is true for ALL configurations, environments, duties (no hypothesis at all).  So P_b can
+   only be false on a case where the implementation differs from the model, and the theorems of the
+   model include the property as the check evaluates it. *)
+
+Definition model_case (id : N) (cf : config) (e : env) (d : duty) (prep : bool) : case :=
+  {| c_id := id; c_cfg := cf; c_env := e; c_duty := d; c_prepare := prep;
+     c_prep_events := fst (fst (run cf e d prep)); c_prep_ok := snd (fst (run cf e d prep));
+     c_obs := snd (run cf e d prep) |}.
+
+Lemma indexed_in : forall A (l : list A) i0 i x, In (i, x) (indexed i0 l) -> exists j, i = (i0 + j)%nat /\ nth_error l j = Some x.
+Proof.
+  intros A l; induction l as [|y l IH]; intros i0 i x H; cbn in H; [destruct H|].
+  destruct H as [H|H].
+  - injection H as <- <-. exists 0%nat. split; [lia|reflexivity].
+  - apply IH in H as (j & -> & Hj). exists (S j). split; [lia|exact Hj].
+Qed.
+
+Lemma indexed_nth : forall A (l : list A) i0 j x, nth_error l j = Some x -> In ((i0 + j)%nat, x) (indexed i0 l).
+Proof.
+  intros A l; induction l as [|y l IH]; intros i0 j x H; [destruct j; discriminate|].
+  destruct j as [|j]; cbn in *.
+  - injection H as ->. left. f_equal. lia.
+  - right. replace (i0 + S j)%nat with (S i0 + j)%nat by lia. apply IH; exact H.
+Qed.
+
+Lemma run_parts : forall cf e d prep,
+  fst (fst (run cf e d prep)) = (if prep then snd (fst (prepare cf e d)) else [])
+  /\ snd (fst (run cf e d prep)) = (if prep then snd (prepare cf e d) else true)
+  /\ snd (run cf e d prep) = propose cf e (run_duty cf e d prep).
+Proof.
+  intros cf e d prep; unfold run, run_duty. destruct prep; [|auto].
+  destruct (prepare cf e d) as [[d1 evs] ok]; auto.
+Qed.
+
+(* the duty Propose works on, in the check's own terms *)
+Lemma run_duty_check : forall id cf e d prep,
+  let c := model_case id cf e d prep in
+  let D := run_duty cf e d prep in
+  d_slot D = d_slot d /\ d_validator D = d_validator d
+  /\ d_account D = duty_account c /\ d_randao D = randao_of c.
+Proof.
+  intros id cf e d prep c D. unfold D, run_duty, duty_account, randao_of, c, model_case; cbn [c_prepare c_env c_duty c_prep_ok].
+  destruct (run_parts cf e d prep) as (_ & Hok & _). rewrite Hok. clear Hok.
+  destruct prep; cbn [andb]; [|auto].
+  unfold prepare.
+  destruct (e_accounts e) as [|m]; cbn [fst snd]; [auto|].
+  destruct (Nat.eqb (length m) 1) eqn:El; cbn [negb fst snd]; [|auto].
+  destruct (e_dom_randao e); cbn [negb fst snd]; [|cbn; auto].
+  destruct (lookup_account (d_validator d) m) as [a|] eqn:Ea; cbn [fst snd]; [|cbn; auto].
+  destruct (e_sig_randao e) as [s|]; cbn; auto.
+Qed.
+
+Lemma clause_prep_events : forall id cf e d prep,
+  let c := model_case id cf e d prep in
+  forallb (randao_event_ok c) (c_prep_events c) = true
+  /\ (count_events ev_sign_randao (c_prep_events c) <= 1)%nat.
+Proof.
+  intros id cf e d prep c.
+  assert (Hpe : c_prep_events c = if prep then snd (fst (prepare cf e d)) else [])
+    by (unfold c, model_case; cbn [c_prep_events]; apply run_parts).
+  rewrite Hpe. clear Hpe.
+  destruct prep; [|split; [reflexivity|cbn; lia]].
+  assert (Hacc : randao_event_ok c (EAccounts (d_slot d / c_spe cf) [d_validator d]) = true).
+  { cbn. unfold duty_epoch; cbn. rewrite !N.eqb_refl. reflexivity. }
+  assert (Hdom : randao_event_ok c (EDomain DOMAIN_RANDAO (d_slot d / c_spe cf)) = true).
+  { cbn. unfold duty_epoch; cbn. rewrite !N.eqb_refl. reflexivity. }
+  unfold prepare.
+  destruct (e_accounts e) as [|m] eqn:Hm; cbn [fst snd].
+  { cbn [forallb]. rewrite Hacc. split; [reflexivity|cbn; lia]. }
+  destruct (Nat.eqb (length m) 1) eqn:El; cbn [negb fst snd].
+  2:{ cbn [forallb]. rewrite Hacc. split; [reflexivity|cbn; lia]. }
+  destruct (e_dom_randao e); cbn [negb fst snd].
+  2:{ cbn [forallb app]. rewrite Hacc, Hdom. split; [reflexivity|cbn; lia]. }
+  destruct (lookup_account (d_validator d) m) as [a|] eqn:Ea; cbn [fst snd].
+  2:{ cbn [forallb app]. rewrite Hacc, Hdom. split; [reflexivity|cbn; lia]. }
+  assert (Hsig : randao_event_ok c (ESignRandao a (d_slot d / c_spe cf) (DOMAIN_RANDAO, d_slot d / c_spe cf)) = true).
+  { cbn. unfold provided_account, duty_epoch, npair_eqb, prod_eqb; cbn. rewrite Hm, Ea. cbn. rewrite !N.eqb_refl. reflexivity. }
+  destruct (e_sig_randao e); cbn [fst snd forallb app]; rewrite Hacc, Hdom, Hsig; (split; [reflexivity|cbn; lia]).
+Qed.
+
+Lemma forallb_app_true {A} (f : A -> bool) l1 l2 : forallb f l1 = true -> forallb f l2 = true -> forallb f (l1 ++ l2) = true.
+Proof. intros H1 H2; rewrite forallb_app, H1, H2; reflexivity. Qed.
+
+Lemma count_events_eq : forall f l, count_events f l = count_if f l.
+Proof. reflexivity. Qed.
+
+Lemma ev_sign_block_eq : forall ev, ev_sign_block ev = Proofs.C05.is_sign_block ev.
+Proof. destruct ev; reflexivity. Qed.
+
+Lemma ev_proposal_eq : forall ev, ev_proposal ev = Proofs.C05.is_proposal ev.
+Proof. destruct ev; reflexivity. Qed.
+
+Lemma count_ext {A} (f g : A -> bool) l : (forall x, f x = g x) -> count_if f l = count_if g l.
+Proof.
+  intro H; unfold count_if; induction l as [|x l IH]; cbn; [reflexivity|]. rewrite H. destruct (g x); cbn; rewrite IH; reflexivity.
+Qed.
+
+Lemma clause_block_events : forall id cf e d prep,
+  let c := model_case id cf e d prep in
+  forallb (block_event_ok c) (o_events (c_obs c)) = true
+  /\ (count_events ev_sign_block (o_events (c_obs c)) <= 1)%nat.
+Proof.
+  intros id cf e d prep c.
+  destruct (run_duty_check id cf e d prep) as (Hs & Hv & Ha & Hr). fold c in Ha, Hr.
+  assert (Hobs : c_obs c = propose cf e (run_duty cf e d prep)) by (unfold c, model_case; cbn [c_obs]; apply run_parts).
+  rewrite Hobs, propose_events.
+  split.
+  2:{ rewrite count_events_eq, (count_ext _ _ _ ev_sign_block_eq). apply sign_phase_count_sign_block. }
+  set (D := run_duty cf e d prep) in *.
+  assert (Hup : forall acct, d_account D = Some acct -> forallb (block_event_ok c) (upto_proposal cf e D acct) = true).
+  { intros acct Hacct. unfold upto_proposal. apply forallb_app_true; [apply forallb_app_true|].
+    - unfold graffiti_events. destruct (e_graffiti e); cbn; rewrite ?Hs, ?Hv; unfold c; cbn; rewrite ?N.eqb_refl; reflexivity.
+    - unfold auction_events. destruct (e_auction e); cbn [forallb block_event_ok]; try reflexivity;
+        rewrite <- Ha, Hacct, Hs; unfold c; cbn; rewrite !N.eqb_refl; reflexivity.
+    - cbn. rewrite Hs. unfold c; cbn. rewrite N.eqb_refl. reflexivity. }
+  assert (Hdomev : block_event_ok c (EDomain DOMAIN_BEACON_PROPOSER (d_slot D / c_spe cf)) = true).
+  { cbn. rewrite Hs. unfold duty_epoch, c; cbn. rewrite !N.eqb_refl. reflexivity. }
+  assert (Hsb : forall acct p h, d_account D = Some acct -> signable e D p h -> block_event_ok c (sign_block_event cf D acct h) = true).
+  { intros acct p h Hacct (Hp & _ & Hb & Hsl & _). unfold sign_block_event. cbn [block_event_ok].
+    rewrite <- Ha, Hacct, Hs, Hv. unfold obtained_block, duty_epoch, npair_eqb, prod_eqb. unfold c at 3 4 5 6 7; cbn [c_env c_duty c_cfg model_case fst snd].
+    rewrite Hp, Hb, Hsl, Hs. cbn. rewrite !N.eqb_refl. reflexivity. }
+  pose proof (sign_phase_course cf e D) as Hc. destruct (sign_phase cf e D) as [evs o]. cbn [fst].
+  inversion Hc; subst.
+  - reflexivity.
+  - apply Hup; assumption.
+  - apply forallb_app_true; [apply Hup; assumption|]. cbn [forallb]. rewrite Hdomev. reflexivity.
+  - apply forallb_app_true; [apply forallb_app_true; [apply Hup; assumption|cbn [forallb]; rewrite Hdomev; reflexivity]|].
+    cbn [forallb]. erewrite Hsb; eauto.
+  - apply forallb_app_true; [apply forallb_app_true; [apply Hup; assumption|cbn [forallb]; rewrite Hdomev; reflexivity]|].
+    cbn [forallb]. erewrite Hsb; eauto.
+Qed.
